@@ -62,7 +62,7 @@ def model_values(model, summ):
         if summ.kinds[i] == "Str":
             vals.append(0x61)
             continue
-        if summ.kinds[i] == "Nil":
+        if K.unheap(summ.kinds[i]) == "Nil":
             vals.append(0)
             continue
         v = model.eval(inp.e, model_completion=True)
